@@ -1581,8 +1581,11 @@ func (e *stageExec) do1(op []string) string {
 			// the answer is about the transmission sent last only if its validation came after the last request that
 			// names the file (a Prepare of a new transmission removes the failed copy's companion: nothing is left to
 			// validate again after a restart, and the old answer stood for the previous transmission)
-			if q := e.lastReq[name]; e.lastSettle > q || e.lastProc[name] > q {
-				e.failedAcross[name] = e.nOps
+			if _, perr := os.Stat(filepath.Join(r.root, name) + ".part"); perr != nil {
+				// (no partial of the name on the stage: no new transmission has begun since the failure)
+				if q := e.lastReq[name]; e.lastSettle > q || e.lastProc[name] > q {
+					e.failedAcross[name] = e.nOps
+				}
 			}
 		} else {
 			delete(e.failedAt, name)
